@@ -294,12 +294,48 @@ def run_one(ck, prog):
                 st = strip_casts(rng[3][0])
                 if isinstance(st, tuple) and st[0] == "field" and calls and mentions(st, ctx.prov, lambda z: z[0] == "call" and z[3] == calls[0]) and not mentions(st, ctx.prov, lambda z: z[0] == "bin"):
                     ok = True
-        ck.ob("C15.4", f"{label}|advance-by-exactly-n", ok and len(idx) == 1, fn=fname, detail="the buffer must be re-sliced with [n..], n being exactly the count the call just reported")
+        # the same progress kept as an offset: the call gets buf[done..] of the caller's buffer, `done` starts at 0 and its only update
+        # is `done += n` with n exactly the count the call just reported
+        offset_var = None
+        if not (ok and len(idx) == 1) and calls:
+            barg = ctx.args(calls[0])[1] if len(ctx.args(calls[0])) > 1 else None
+            for x in (walk_deep(barg, ctx.prov, limit=120) if barg is not None else ()):
+                if x[0] == "call" and (x[1] or "").endswith(("Index::index", "IndexMut::index_mut")) and len(x[2]) == 2 and mentions(x[2][0], ctx.prov, lambda z: z[0] == "param" and z[1] == 2):
+                    rng = strip_casts(x[2][1])
+                    if isinstance(rng, tuple) and rng[0] == "agg" and str(rng[1]).endswith("RangeFrom") and rng[3]:
+                        w = strip_casts(rng[3][0])
+                        if isinstance(w, tuple) and w[0] == "var":
+                            defs = [strip_casts(d) for d in ctx.prov.expand(w)]
+                            good = bool(defs)
+                            for d in defs:
+                                if fold(d) == 0:
+                                    continue
+                                if isinstance(d, tuple) and d[0] == "field" and isinstance(d[1], tuple) and d[1][0] == "bin":
+                                    d = d[1]
+                                if isinstance(d, tuple) and d[0] == "bin" and d[1] in ("Add", "AddWithOverflow") and isinstance(strip_casts(d[2]), tuple) and strip_casts(d[2])[0] == "var" and strip_casts(d[2])[1] == w[1]:
+                                    n = strip_casts(d[3])
+                                    if isinstance(n, tuple) and n[0] == "field" and isinstance(n[1], tuple) and n[1][0] == "downcast" and isinstance(n[1][1], tuple) and n[1][1][0] == "call" and n[1][1][3] == calls[0]:
+                                        continue
+                                good = False
+                            if good and any(fold(d) == 0 for d in defs) and len(defs) >= 2:
+                                offset_var = w
+        if offset_var is not None:
+            ok, idx = True, [0]
+        ck.ob("C15.4", f"{label}|advance-by-exactly-n", ok and len(idx) == 1, fn=fname, detail="the buffer must be re-sliced with [n..] (or an offset advanced by n), n being exactly the count the call just reported")
         # Ok(()) only when the buffer is empty
         oks = [b["id"] for b in fn["blocks"] if b["id"] in cfg.live_blocks() and not b.get("cleanup") and any(s["k"] == "assign" and s["dst"]["l"] == 0 and s["rv"]["k"] == "agg" and s["rv"].get("variant") == "Ok" for s in b["stmts"])]
         for ob in oks:
             facts = panics.dominating_facts(ctx, ob)
             emp = any(f[0] == "truth" and isinstance(f[1], tuple) and f[1][0] == "call" and (f[1][1] or "").endswith("::is_empty") and (f[2] is True) for f in facts)
+            if not emp and offset_var is not None:
+                # offset form: done == buf.len()
+                def is_off(z):
+                    z = strip_casts(z)
+                    return isinstance(z, tuple) and z[0] == "var" and z[1] == offset_var[1]
+
+                def is_total(z):
+                    return mentions(z, ctx.prov, lambda y: (y[0] == "call" and (y[1] or "").endswith("<impl [T]>::len")) or y[0] == "len") and mentions(z, ctx.prov, lambda y: y[0] == "param" and y[1] == 2) and not mentions(z, ctx.prov, lambda y: y[0] == "bin")
+                emp = any(f[0] == "cmp" and f[1] == "Eq" and ((is_off(f[2]) and is_total(f[3])) or (is_off(f[3]) and is_total(f[2]))) for f in facts)
             ck.ob("C15.4", f"{label}|ok-only-when-done", emp, fn=fname, detail="Ok(()) must be dominated by buf.is_empty() == true (nothing left to transfer)")
         ck.ob("C15.4", f"{label}|anchor|ok", len(oks) == 1, fn=fname, detail=f"Ok returns: {len(oks)}")
         if label == "write_all" and calls:
@@ -371,12 +407,47 @@ def run_one(ck, prog):
                 errs = err_edges_of_call(c3, bb)
                 keeps = {b["id"] for b in f2["blocks"] if any(s["k"] == "assign" and s["dst"].get("p") and any(pe["k"] == "field" and pe.get("n") == "error" for pe in s["dst"]["p"]) for s in b["stmts"])}
                 lost = [e for e in errs if set(c3.cfg.return_blocks()) & c3.cfg.reachable_from(e.dst, avoid=keeps)]
-                ck.ob("C15.5", f"adapter|{p2.split('::')[-1]}|writer-error-kept", bool(errs) and not lost, fn=p2, site=c3.site(bb),
+                kept_by_closure = False
+                if not errs:
+                    # `write_all(..).map_err(|e| { self.error = Err(e); fmt::Error })`: the closure runs exactly on the error and stores it
+                    for mb, mt in c3.cfg.calls(lambda t: (t.get("callee") or "").endswith("Result::<T, E>::map_err")):
+                        ma = c3.args(mb)
+                        if len(ma) == 2 and isinstance(strip_casts(ma[0]), tuple) and strip_casts(ma[0])[0] == "call" and strip_casts(ma[0])[3] == bb:
+                            clo = strip_casts(ma[1])
+                            cpath = clo[2] if isinstance(clo, tuple) and clo[0] == "agg" and isinstance(clo[2], str) else None
+                            cf = prog.fns.get(cpath) if cpath else None
+                            if cf is not None:
+                                # the closure captures `&mut self.error` and stores Err(e) through it on its only path
+                                caps_error = any(mentions(op, c3.prov, lambda z: z[0] == "field" and z[2] == "error") for op in (clo[3] or ()))
+                                cc0 = prog.ctx(cf)
+                                def _is_err_store(cx, b, i2, s2):
+                                    if s2["k"] != "assign" or not s2["dst"].get("p") or s2["dst"]["p"][0]["k"] != "deref":
+                                        return False
+                                    v2 = strip_casts(cx.prov.rvalue(s2["rv"], (b["id"], i2)))
+                                    return isinstance(v2, tuple) and v2[0] == "agg" and v2[2] == "Err"
+                                through_capture = [b["id"] for b in cf["blocks"] if not b.get("cleanup") for i2, s2 in enumerate(b["stmts"]) if _is_err_store(cc0, b, i2, s2)]
+                                if caps_error and through_capture and all(any(cc0.cfg.dominates(sb, rb) for sb in through_capture) for rb in cc0.cfg.return_blocks()):
+                                    kept_by_closure = True
+                                st_all = [1 for b in cf["blocks"] if not b.get("cleanup") for s2 in b["stmts"] if s2["k"] == "assign" and s2["dst"].get("p") and any(pe["k"] == "field" and pe.get("n") == "error" for pe in s2["dst"]["p"])]
+                                cc = prog.ctx(cf)
+                                on_all = all(any(cc.cfg.dominates(b["id"], rb) for b in cf["blocks"] if any(s2["k"] == "assign" and s2["dst"].get("p") and any(pe["k"] == "field" and pe.get("n") == "error" for pe in s2["dst"]["p"]) for s2 in b["stmts"])) for rb in cc.cfg.return_blocks())
+                                kept_by_closure = kept_by_closure or (bool(st_all) and on_all)
+                ck.ob("C15.5", f"adapter|{p2.split('::')[-1]}|writer-error-kept", (bool(errs) and not lost) or kept_by_closure, fn=p2, site=c3.site(bb),
                       detail="when the writer fails the adapter must store that error (self.error = Err(e)) before reporting fmt::Error; otherwise write_fmt answers with a generic formatter error")
         ck.floor("C15.5", "adapter calls of the writer", n_ad, 1)
         ad = [f for p, f in prog.fns.items() if "write_fmt::Adapter" in p and p.endswith("write_str")]
         if ck.anchor("C15.5", "Adapter::write_str", ad):
             c2 = prog.ctx(ad[0])
             wa = [bb for bb, t in c2.cfg.calls(lambda t: (t.get("callee") or "").endswith("Write::write_all"))]
-            stores = [1 for b in ad[0]["blocks"] for s in b["stmts"] if s["k"] == "assign" and s["dst"].get("p") and any(pe["k"] == "field" and pe.get("n") == "error" for pe in s["dst"]["p"])]
+            stores = [1 for f3 in [ad[0]] + [f4 for p4, f4 in prog.fns.items() if p4.startswith(ad[0]["path"] + "::{closure")] for b in f3["blocks"] for s in b["stmts"] if s["k"] == "assign" and s["dst"].get("p") and any(pe["k"] == "field" and pe.get("n") == "error" for pe in s["dst"]["p"])]
+            if not stores:
+                for p4, f4 in prog.fns.items():
+                    if p4.startswith(ad[0]["path"] + "::{closure"):
+                        c4 = prog.ctx(f4)
+                        for b in f4["blocks"]:
+                            for i4, s4 in enumerate(b["stmts"]):
+                                if s4["k"] == "assign" and s4["dst"].get("p") and s4["dst"]["p"][0]["k"] == "deref":
+                                    v4 = strip_casts(c4.prov.rvalue(s4["rv"], (b["id"], i4)))
+                                    if isinstance(v4, tuple) and v4[0] == "agg" and v4[2] == "Err":
+                                        stores.append(1)
             ck.ob("C15.5", "adapter-uses-write_all-and-stores-error", len(wa) == 1 and len(stores) >= 1, fn=ad[0]["path"], detail="the adapter must deliver with write_all and keep the error")
